@@ -128,8 +128,10 @@ Definition refs_unregister (o : orc) (s : src) : src * list action :=
 Definition install (k : kind) (o : orc) (s : src) : src * list action :=
   let s1 := with_installed s in
   if c_reg_ok o || k_timer k || (k_direct k && negb (k_rearm k)) then
-    (* custom filters and muxed registrations come back ARMED; timers only get their wlh bits *)
-    (with_du s1 true (if k_timer k then du_armed s1 else true) false (if k_timer k then kreg s1 else true), [AInstall true])
+    (* custom filters and muxed registrations come back ARMED; timers only get their wlh bits (they enter the heap when
+       armed); direct unotes are the custom data filters on this platform (DISPATCH_HAVE_DIRECT_KNOTES = 0): nothing is
+       registered with the kernel for them *)
+    (with_du s1 true (if k_timer k then du_armed s1 else true) false (if k_timer k then kreg s1 else negb (k_direct k)), [AInstall true])
   else let '(s2, a) := finalize s1 in (s2, AInstall false :: a).
 
 (* _dispatch_source_refs_needs_rearm (source.c:489) *)
@@ -245,7 +247,8 @@ Definition phase (k : kind) (q : queue) (o : orc) (i : ist) : pres :=
         else if c_susp o then Ret s [] RTarget
         else if i_avoid i && c_anon o then Ret s [] RTarget
         else (* _dispatch_unote_resume: muxed sources are re-armed, timers re-enter the heap if they need to *)
-          let a := if k_timer k then c_arm o else true in
+          (* a timer whose registration is gone (du_ident == DISPATCH_TIMER_IDENT_CANCELED) is never re-armed: event.c:825 *)
+          let a := if k_timer k then c_arm o && du_wlh s else true in
           Ret (with_du s (du_wlh s) a (du_nd s) (if k_timer k then a else kreg s)) [ARearm] (i_retq i)
       else Ret s [] (i_retq i)
   (* dispatch_source_cancel_and_wait with the drain lock taken (source.c:1062-1074) *)
@@ -500,3 +503,79 @@ Definition quiescent (g : gst) : Prop :=
 Definition final_src (s : src) : Prop :=
   canceled (fl s) = true /\ deleted (fl s) = true /\ waiter (fl s) = false /\ needs_event (fl s) = false /\
   h_ev s = false /\ h_ca s = false /\ h_reg s = false /\ registered s = false /\ kreg s = false /\ installed s = true.
+
+(* ------------------------------------------------------------------ vocabulary of the theorems *)
+Definition res_src (p : pres) : src := match p with Cont i _ => i_src i | Ret s _ _ => s end.
+Definition res_acts (p : pres) : list action := match p with Cont _ a => a | Ret _ a _ => a end.
+Definition res_pc (p : pres) : opc := match p with Cont i _ => i_pc i | Ret _ _ _ => OIdle end.
+Definition res_dqf (p : pres) (d : flags) : flags := match p with Cont i _ => i_dqf i | Ret _ _ _ => f0 end.
+
+Definition custom (k : kind) : bool := k_direct k && negb (k_timer k).
+Definition Sinv (k : kind) (s : src) : Prop :=
+  (deleted (fl s) = true -> kreg s = false /\ waiter (fl s) = false /\ needs_event (fl s) = false /\
+                            (custom k = false -> installed s = true /\ registered s = false)) /\
+  (kreg s = true -> du_wlh s = true) /\
+  (du_armed s = true \/ du_nd s = true -> du_wlh s = true) /\
+  (du_wlh s = true -> installed s = true).
+
+Definition in_cd (p : opc) : bool := match p with OCD1 | OCD2 | OCD3 => true | _ => false end.
+Definition past_install (p : opc) : bool := match p with OA2 | OA3 | OA4 | OP1 | OLatch | OInEh | OP2 | OP3 => true | _ => false end.
+(* what the lock owner knows at its program point *)
+Definition Pinv (k : kind) (s : src) (p : opc) : Prop :=
+  Sinv k s /\ (past_install p = true -> installed s = true) /\ (in_cd p = true -> custom k = true).
+
+Definition res_dqf' (p : pres) : flags := match p with Cont i _ => i_dqf i | Ret _ _ _ => f0 end.
+Definition is_fin (a : action) : bool := match a with AFinalize _ _ => true | _ => false end.
+
+
+(* ------------------------------------------------------------------ per-thread monitor for recorded traces
+   One thread's recorded events on one source's dq_atomic_flags word (DISPATCH_VERIF hook) and the harness marks
+   (callout begin/end).  It accepts exactly what the model lets a thread do with the word: every write is one of the
+   model's transitions (the generated rmw bodies applied to the value the thread last observed), the futex wake follows
+   a finalize that saw a waiter, an event handler callout starts only if the thread's last read of the word had neither
+   CANCELED nor RELEASED, a cancel handler callout only if it had CANCELED and DELETED. *)
+Record mst := mkM { m_last : option Z; m_wake : bool }.
+Definition has (z : Z) (b : Z) : bool := Z.testbit z b.
+Definition is_commit (o : rmw_outcome) (n : Z) : bool := match o with Commit x _ => x =? n | _ => false end.
+Definition mon_step (kt kd : Z) (m : mst) (e : event) : option mst :=
+  let k := ek e in
+  if m_wake m then (if k =? DV_FUTEX_WAKE then Some (mkM (m_last m) false) else None)
+  else if k =? DV_LOAD then Some (mkM (Some (ea e)) false)
+  else if k =? DV_OR then
+    if (eb e =? DSF_CANCELED) || (eb e =? DQF_RELEASED) || (eb e =? DQF_BARRIER_BIT) || (eb e =? DQF_TARGETED) || (eb e =? DSF_WLH_CHANGED)
+    then Some m else None
+  else if k =? DV_AND then
+    if has (eb e) BIT_RELEASED && has (eb e) BIT_CANCELED && has (eb e) BIT_WAITER && has (eb e) BIT_NEEDS_EVENT && has (eb e) BIT_DELETED
+    then Some m else None
+  else if k =? DV_CASW then
+    match m_last m with
+    | None => None
+    | Some old =>
+        let fin := is_commit (flags_set_and_clear_loop 0 DSF_DELETED (Z.lor DSF_NEEDS_EVENT DSF_CANCEL_WAITER) old) (eb e) in
+        if fin || is_commit (cancel_and_wait_loop 0 old kt kd) (eb e) || is_commit (refs_unregister_loop 0 0 old) (eb e) then
+          if eok e =? 1 then (if ea e =? old then Some (mkM (Some (eb e)) (fin && has old BIT_WAITER)) else None)
+          else Some (mkM (Some (ea e)) false)
+        else None
+    end
+  else if k =? DV_CAS then
+    match m_last m with
+    | None => None
+    | Some old =>
+        if (eb e =? Z.lor old DSF_CANCEL_WAITER) && negb (has old BIT_DELETED) && negb (has old BIT_WAITER) then
+          if eok e =? 1 then (if ea e =? old then Some (mkM (Some (eb e)) false) else None) else Some (mkM (Some (ea e)) false)
+        else None
+    end
+  else if k =? DV_FUTEX_WAIT then (if has (ea e) BIT_WAITER && negb (has (ea e) BIT_DELETED) then Some m else None)
+  else if k =? DV_FUTEX_WAIT_RET then Some m
+  else if k =? DV_FUTEX_WAKE then None
+  else if k =? DVU_CALLOUT_BEGIN then
+    match m_last m with
+    | None => None
+    | Some v => if ea e =? 0 then (if negb (has v BIT_CANCELED) && negb (has v BIT_RELEASED) then Some m else None)
+                else (if has v BIT_CANCELED && has v BIT_DELETED then Some m else None)
+    end
+  else if (k =? DVU_CALLOUT_END) || (k =? DVU_CALL) || (k =? DVU_RET) || (k =? DVU_MARK) then Some m
+  else None.
+(* sv = 2 * is_timer + is_direct *)
+Definition conform (sv : Z) (tr : list event) : Z * Z :=
+  let '(m, i) := run_trace (mon_step (sv / 2) (sv mod 2)) (mkM None false) tr 0 in (i, if m_wake m then 0 else 1).
